@@ -134,15 +134,28 @@ def gen_state(rng, big=False, now=1700000000):
             deleted = [(p, rbytes(rng, hs)) for p in sorted(set(free))]
         useds.append(set(used))
         # a disk without any file: only directories / only links / nothing (fs_is_empty: files, links, DIRS or a block below blockmax)
-        if di != top_owner and rng.random() < 0.12:
+        if di != top_owner and rng.random() < 0.18:
             kind = rng.choice(['dirs', 'links', 'nothing'])
             files, used, deleted = [], [], []
             dirs = [rname(rng) for _ in range(rng.choice([1, 2]))] if kind == 'dirs' else []
             links = [dict(hard=rng.random() < 0.5, sub=rname(rng), to=rname(rng))] if kind == 'links' else []
             useds[-1] = set()
         disks.append(dict(name=names[di].encode(), files=files, links=links, dirs=dirs, deleted=deleted))
-    # DELETED blocks that survive the save: at positions where another disk has a file block
+    # a disk that owns nothing but DELETED blocks: alone in their stripes (dropped by the save, and its map with them), shared with
+    # the files of another disk (kept), or both
     allused = set().union(*useds) if useds else set()
+    if bm:
+        for di, d in enumerate(disks):
+            if not d['files'] and not d['links'] and not d['dirs'] and rng.random() < 0.7:
+                kind = rng.choice(['alone', 'alone', 'shared', 'both'])
+                free = [p for p in range(min(bm, 60)) if p not in allused]
+                shared = sorted(allused)
+                pick = []
+                if kind in ('alone', 'both') and free:
+                    pick += rng.sample(free, min(len(free), rng.choice([1, 2, 4])))
+                if kind in ('shared', 'both') and shared:
+                    pick += rng.sample(shared, min(len(shared), rng.choice([1, 3])))
+                d['deleted'] = [(p, rbytes(rng, hs)) for p in sorted(set(pick))]
     for di, d in enumerate(disks):
         cand = sorted(allused - useds[di] - {p for p, _ in d['deleted']})
         if cand and rng.random() < 0.6:
